@@ -424,12 +424,13 @@ def unmarshal : V → Slice → R V
   | .obj "NXActionResubmit" [_, _, t, pad], data => do
     let h ← nxPrefix data
     let ip ← data.u16From 10
-    pure (.obj "NXActionResubmit" [h, V.u16 ip, t, pad])
+    let _ := t
+    pure (.obj "NXActionResubmit" [h, V.u16 ip, .num Gen.openflow13.OFPTT_ALL, pad])
   | _, _ => .panic
 /-- NewNXActionResubmit: `a.Type = Type_Experimenter` (the MESSAGE type constant 4) overwrites the action type 0xffff -/
 def new (ip : Nat) : R V := do
   let h := NXActionHeader.newL Gen.openflow13.NXAST_RESUBMIT 16
-  pure (.obj "NXActionResubmit" [h, V.u16 (n16 ip), .num 0, .bytes (zeros 3)])
+  pure (.obj "NXActionResubmit" [h, V.u16 (n16 ip), .num Gen.openflow13.OFPTT_ALL, .bytes (zeros 3)])
 end NXActionResubmit
 
 namespace NXActionResubmitTable
